@@ -16,17 +16,19 @@ CHECKS = {
  "C03": dict(
   level="model_checking", ref="5 C03",
   text="TLC explores TableAbs (a map with normalised keys, alternative float spellings of integer keys, borders, traversals whose body updates or "
-       "clears existing fields, __index/__newindex consultation) exhaustively over two key families and by simulation of 60-step histories over 13 keys; "
+       "clears existing fields, __index/__newindex consultation) exhaustively over small key families (integers and their float spellings, mixed types, boundary-length strings, numeric keys at the edges of the float-to-integer "
+       "normalisation (2^53, 2^63, -2^63, min/maxinteger, infinities), closures that compare equal) and by simulation of 30-100-step histories over 13-47 keys; "
        "each history is rendered as a Lua program on a real table (fresh seeded key values per instance) and checked against the model: every get, the "
        "metamethod consultations, #t against the model's set of borders, visited-key sets of every traversal, final rawget of every spelling and final pairs",
-  note="bounded histories; traversal order and the choice of border are unspecified and not compared; the open-addressing layout itself is not modelled (keys are re-instantiated instead)",
+  note="bounded histories; traversal order and the choice of border are unspecified and not compared; the open-addressing layout itself is not modelled (keys are re-instantiated instead); "
+       "whether two closures of one prototype are equal is left open by the manual: the model has both variants and the one matching the observed == is kept",
   technique="TLA+ spec TableAbs.tla, TLC BFS + simulation, generated programs replayed on real tables (direction A)"),
  "C07": dict(
   level="model_checking", ref="5 C05-C07",
   text="TLC explores the bounded Quota model (context stack, CallContext frames, panics; saturating 4-bit counters scaled to 64 bits, "
        "and unscaled) exhaustively; every transition's path is replayed on the real runtime-context manager through the exported API and "
        "the projected state compared; the model's invariants (BudgetConservation, SoftWithinHard, FlagsMonotone, UsedBelowKill, "
-       "ChargedToParent, StatusTruth, Exact) are evaluated on every transition and hold for the real manager because its state equals the model's",
+       "ChargedToParent, StatusTruth, Exact, TimeExact, PoppedAtEnd) are evaluated on every transition and hold for the real manager because its state equals the model's",
   note="bounded: depth<=3-4 contexts, 2-3 nested CallContext, limits/amounts from a 4-bit lattice; time limits (Millis) driven by a virtual clock through the verif hook VerifNowHook, API level only (clock steps {4,9} ms, limits {0,10} ms, the real CPU threshold 10000); TLC and the JSON bridge trusted",
   technique="TLA+ spec Quota.tla, TLC exhaustive BFS, per-transition replay on the real API (direction A)"),
  "C08": dict(
@@ -36,9 +38,11 @@ CHECKS = {
        "sources (reaches an OS primitive directly / only through safeio / not at all); Gate.tla is instantiated with it and TLC gives, for every function x required flag set, the "
        "expected outcome (refused before any effect with the context still live, or runs) and the static IoSafe leads; every pair is then exercised for real inside "
        "runtime.callcontext{flags=...} with 33-73 argument tuples from an effect-seeking pool in a sentinel directory whose changes (files created/modified/deleted, also by spawned "
-       "commands) are observed",
+       "commands) are observed. The route by which a function is reached is a dimension of the model (66 routes x {Go function installed directly, Lua closure calling it}: call forms, "
+       "every metamethod incl. __close on every kind of exit and __gc on return/error/kill/collection, library callbacks, hooks) over chains of nested contexts with and without hard limits "
+       "(finaliser-pool ownership); 16 probe functions (one per declared flag set) make the gate's decision observable on every route; invariant RouteIndependence",
   note="network and plugin effects are not observable in the sandbox; the static class only raises leads; flag subsets: 6 in quick, all 16 in thorough",
-  technique="TLA+ spec Gate.tla over an inventory extracted from the code, TLC enumeration, every (function, flag set) replayed on the real runtime with effect observation (direction A)"),
+  technique="TLA+ spec Gate.tla over an inventory extracted from the code, TLC enumeration, every (function, flag set) and every (function, route, mode, context chain) of the route family replayed on the real runtime with effect observation (direction A)"),
  "C09": dict(
   level="model_checking", ref="5 C09",
   text="TLC explores CoSem (Lua 5.4 coroutine semantics: status machine, resume chain, value transfer, close, wrap, pending to-be-closed "
@@ -65,15 +69,20 @@ CHECKS = {
   text="the scope/unwinding model (CloseStack.tla with catchers pcall, xpcall+message handler, coroutine.resume; error values string level 0/1/2, "
        "number, table, nil, runtime errors; raise sites statement/metamethod/iterator/nested function) is explored by TLC; every path is rendered as a Lua "
        "program and run; compared: which catcher received which value (tables by identity, position prefix chunk:line: computed from the rendered text), "
-       "handler calls, pending __close calls, and a post-error consistency battery after every caught error",
-  note="bounded: nesting <=3-4, <=5-7 actions; raising message handlers and raising __close handlers under xpcall are not generated; error message wording beyond the position prefix is not compared",
-  technique="TLA+ spec CloseStack.tla (ErrorFlow configs), TLC BFS + simulation, generated programs replayed on the real runtime (direction A)"),
+       "handler calls, pending __close calls, and a post-error consistency battery after every caught error. ErrPos.tla models a string error value as a sequence of position "
+       "prefixes plus payload over chains of functions in 7 differently named chunks: error(v, L) for L in 0..4,9 over a modelled caller stack (plain / tail calls, pcall/xpcall frames, coroutine "
+       "bodies, __close handlers), 16 kinds of runtime errors at the faulting line, messages that already look positioned, and re-raising after every kind of catch (pcall, xpcall with 6 handler "
+       "kinds, resume, wrap, coroutine.close, __close handlers) so that prefixes from different chunks stack up; the expected text is exact because the renderer knows every line",
+  note="bounded: nesting <=3-4, <=5-7 actions, chains of <=3 (quick) / 6 (simulation) layers; error message wording beyond the position prefix is not compared; where the manual leaves a position open the spec emits the set of accepted forms",
+  technique="TLA+ specs CloseStack.tla (ErrorFlow configs) and ErrPos.tla, TLC BFS + simulation, generated programs replayed on the real runtime (direction A)"),
  "C04": dict(
   level="exploration", ref="5 C04",
-  text="Limits.tla gives, for 27 program shapes parameterised by a size n (locals, upvalues, constants, list items before a multi-value tail, arguments, parameters, results, "
+  text="Limits.tla gives, for 36 program shapes parameterised by a size n (locals, upvalues, constants, list items before a multi-value tail, arguments, parameters, results, "
        "forward/backward jump distance, function size, nesting of blocks / parentheses / tables / functions / ifs, __index and __call chains, recursion through pcall / tostring / "
        "gsub / plain Lua, literal and identifier length, long-bracket level, unpack), the value the program must return if it is accepted; TLC enumerates every shape at sizes "
-       "around golua's encoding limits (255, 32767, 65535) and far beyond; the only allowed outcomes on the real pipeline are an ordinary compile/runtime error, a resource "
+       "around golua's encoding limits (255, 32767, 65535) and far beyond (the nesting shapes and the chains of operators / call / index suffixes up to 10^6, where a recursive parser or "
+       "compiler exhausts the Go stack), plus 34 shapes of unbounded recursion through a route that nests the implementation's own stack (every operator metamethod, looping __call/__index chains, "
+       "__tostring, __close, sort/gsub callbacks, xpcall handler, load reader ...) which have no value and are run both under limits and with no resource limit at all; the only allowed outcomes on the real pipeline are an ordinary compile/runtime error, a resource "
        "termination, or that value - a Go panic, a process crash, a hang or a wrong value is a violation. Plain exploration in addition: every standard-library function x 40-400 "
        "edge-value argument tuples, and seeded byte mutations of generated programs, with the oracle 'ordinary outcome'",
   note="totality over all byte strings and all argument tuples is explored, not model-checked; only the limit shapes are decided by a specification",
@@ -111,8 +120,9 @@ CHECKS = {
        "limited contexts normally / by error / by kill, nested) which are rendered as Lua programs; the events of the real run (every __gc call, every ReleaseResources call of a "
        "driver-provided userdata, context boundaries) are validated by TLC against GCTrace.tla: a finaliser runs at most once and never while the value is reachable, except when "
        "its context or the runtime closes, where all pending ones run in reverse order of marking; release exactly once and after the finaliser, also after a kill (which skips "
-       "finalisers); finalisers run inside the context that created the value; at leave/close nothing is missing",
-  note="when the Go collector reports a value unreachable is left open (may/must semantics); values are not re-marked; runtime/internal/luagc is driven through the Runtime API only",
+       "finalisers); finalisers run inside the context that owns the value (the one that marked it last); at leave/close nothing is missing. Scripts also re-mark values (setmetatable "
+       "again) in the creating context, in a nested one and after the creating context ended, and include finalisers that re-arm themselves (a new marking while running, no obligation while closing)",
+  note="when the Go collector reports a value unreachable is left open (may/must semantics); runtime/internal/luagc is driven through the Runtime API only; open finding F37 (a value marked in two open contexts is finalised by both)",
   technique="TLA+ specs GCGen.tla (scripts, direction A) and GCTrace.tla (TLC validation of recorded event traces, direction B)"),
  "C19": dict(
   level="model_checking", ref="5 C19 and notes/C19.md",
@@ -128,7 +138,9 @@ CHECKS = {
   text="relational conformance against one specification behaviour per program: ~500 (quick) / ~5000 (thorough) programs whose expected events, results and errors "
        "(incl. error positions) are given by the TLA+ program generators (CloseStack, ErrorFlow, CoSem, TableAbs simulation paths) plus pool/closure stress programs are run "
        "as the chunk itself, as load(string.dump(chunk)) and as load(string.dump(load(string.dump(chunk)))); each variant must conform to the specification and equal "
-       "the reference variant; dump determinism and dump(load(dump(f))) == dump(f) are byte comparisons in the driver",
+       "the reference variant; dump determinism and dump(load(dump(f))) == dump(f) are byte comparisons in the driver. DumpSize.tla adds 23 program shapes parameterised by a size "
+       "(sibling / nested / module functions, constants of every type incl. NUL and non-UTF-8 strings and strings up to 100000 bytes, upvalues, locals, jumps, varargs, line numbers) at "
+       "1, 2, 127, 128, 199..201, 255..257, 1000, 10000, 32768, 65536 with the events each must emit, run direct / dumped / stripped / re-dumped / as an inner closure",
   note="the byte layout of string.dump is not specified (encode/decode fidelity is outside the technique); chunk-level dumps only (nested functions, constants of every type, "
        "varargs and upvalues occur inside the chunks); programs on which the reference variant itself deviates from the spec are left to the owning property",
   technique="TLA+ program generators as the oracle; dump/load variants replayed and judged against the same spec behaviour (direction A, relational)"),
@@ -136,8 +148,11 @@ CHECKS = {
   level="translation_validation", ref="5 C14",
   text="the same spec-judged program corpus as C13 plus pool-stressing programs (deep and tail recursion, error unwinding through many frames, abandoned coroutines, closures "
        "outliving their frame, re-entrant calls from Go, vararg pools) is run by six driver binaries built from /repo with the tag sets default, noregpool, nocontpool, "
-       "noregpool+nocontpool, noquotas, safepool; every build must conform to the specification's expected events/results/errors and agree with the default build",
-  note="the pool life-cycle model (Pools.tla) of DESIGN.md is not built; detection relies on observable differences on the corpus",
+       "noregpool+nocontpool, noquotas, safepool; every build must conform to the specification's expected events/results/errors and agree with the default build. DeadCo.tla adds "
+       "chains of calls through 12 Go library callbacks, protected calls and coroutine boundaries ending in an error, with a model of what each dead coroutine retains (status, traceback is a "
+       "string starting with the message and frozen, getinfo fields, close result) inspected in place, from under nested pcalls and after pool-reusing work; GC scripts of GCGen.tla are run "
+       "on every build and a build is reported when it behaves differently from the default build",
+  note="the pool life-cycle model (Pools.tla) of DESIGN.md is not built; detection relies on observable differences on the corpus; open finding F38 (safepool build only)",
   technique="TLA+ program generators as the oracle; six build variants replayed and judged against the same spec behaviour (direction A, relational)"),
  "C02": dict(
   level="model_checking", ref="4, 5 C02 and notes/C02.md",
@@ -145,7 +160,8 @@ CHECKS = {
        "doubles as exact dyadic values with IEEE round-to-nearest-even, mathematically exact mixed comparison, conversions (tointeger, float->int only for exact values), "
        "numeral and string->number denotation. TLC asserts ~30 algebraic laws on the model (trichotomy, le = lt or eq, a = (a//b)*b + a%b, shifts vs multiplication) and "
        "emits the expected result of every operator on all ordered pairs of a boundary lattice (59 / 122 values), a string lattice, all numeral strings up to length 4 / 5 and "
-       "seeded random operands; every determined result is compared bit-exactly with golua, with operands as literals and as runtime values",
+       "seeded random operands; every determined result is compared bit-exactly with golua, with operands as literals and as runtime values. LuaNumSrc.tla covers numerals written in "
+       "the program text: every 2^k+d (k in 0..64), 12-15 spellings, negations, 27-34 constant expressions, in 44 syntactic positions, also through string.dump + load",
   note="^ is checked by subtype only; float %, fmod and // only where determined; subnormals, NaN payloads and transcendental functions are not compared; open findings C02-1/2/3/5",
   technique="TLA+ specs LuaNum.tla + BigInt.tla evaluated by TLC over a lattice, laws checked on the spec, tabular comparison with the real runtime (direction A)"),
  "C15": dict(
@@ -162,7 +178,9 @@ CHECKS = {
   level="model_checking", ref="5 C16 and notes/C16.md",
   text="NumFor.tla states the numeric for loop in two layers (the manual's progression with exact comparison against the unclipped limit, and the clipped-limit form with "
        "precomputed iteration count) which TLC asserts equal, on top of LuaNum.tla; the first 4 values (kind and exact value) or the error of every (start, limit, step) triple "
-       "from a boundary lattice (13x12x13 / 27x29x28) are compared with the real loop, operands as literals and as runtime values, under a watchdog (a hang is a violation)",
+       "from a boundary lattice (13x12x13 / 27x29x28) are compared with the real loop, operands as literals and as runtime values, under a watchdog (a hang is a violation). "
+       "NumForMut.tla adds loops whose control expressions are locals / upvalues / globals / fields / calls / numeric strings and whose bodies (or control expressions) assign to those "
+       "variables and to the control variable: the progression must not change, expressions are evaluated once (all evaluation orders accepted)",
   note="numeric strings as control values and NaN in float loops are not compared (manual and reference implementation disagree); open findings C16-1/2/3",
   technique="TLA+ spec NumFor.tla over LuaNum.tla, TLC exhaustive over the lattice, expected sequences compared with the real loop (direction A)"),
  "C17": dict(
